@@ -531,6 +531,34 @@ pub struct ContCase {
     pub src: Cont,
     pub dst: Cont,
     pub form: Form,
+    /// where the reader meets the sequence: 0 top level; 1 field of a version-0 record between two siblings; 2 field
+    /// that an evolution step added (a chunk of its own, behind the chunk that holds its siblings)
+    #[serde(default)]
+    pub holder: u8,
+}
+
+/// the target container as a field `c` of a run-time record { p: u16, c, q: String }, and the source's bytes laid out
+/// by hand as that record's encoding (what matters is the reader)
+fn held(kind: u8, dty: &Ty, bytes: &[u8]) -> (Ty, Vec<u8>) {
+    use vmodel::refcodec::var_i32;
+    use vmodel::{Field, Record, Step};
+    let fields = vec![Field::new("p", Ty::U16), Field::new("c", dty.clone()), Field::new("q", Ty::Str)];
+    let mut out = Vec::new();
+    let steps = if kind == 2 {
+        out.push(1);
+        var_i32(2 + 2, &mut out);
+        var_i32(bytes.len() as i32, &mut out);
+        out.extend_from_slice(&[0x12, 0x34, 2, b'q']);
+        out.extend_from_slice(bytes);
+        vec![Step::Added { name: "c".into(), default: vmodel::declgen::sample_val(dty, ValCfg { max_len: 1, long: false, ..ValCfg::default() }, 7) }]
+    } else {
+        out.push(0);
+        out.extend_from_slice(&[0x12, 0x34]);
+        out.extend_from_slice(bytes);
+        out.extend_from_slice(&[2, b'q']);
+        vec![]
+    };
+    (Ty::Adt(vmodel::declgen::struct_decl(&format!("DynHeld{kind}{:08x}", vmodel::fnv64(dty.render().as_bytes()) as u32), &Record { fields, steps })), out)
 }
 
 fn cont_ty(c: Cont, e: &Ty, e2: &Option<Ty>, n: usize) -> Ty {
@@ -575,7 +603,7 @@ pub fn cont_case_strategy() -> BoxedStrategy<ContCase> {
             };
             (Just(e), xs, Just(s), Just(d), Just(f))
         })
-        .prop_map(|(elem, xs, src, dst, form)| ContCase { elem, elem2: None, xs, src, dst, form });
+        .prop_map(|(elem, xs, src, dst, form)| ContCase { elem, elem2: None, xs, src, dst, form, holder: 0 });
     // (2) sequences over any element type (ordered containers only)
     let anyseq = (any_ty(1), prop::sample::select(vec![Cont::Vec, Cont::Slice, Cont::LinkedList, Cont::RcSlice]), prop::sample::select(vec![Cont::Vec, Cont::LinkedList]), prop::sample::select(vec![Form::Known, Form::WriterUnknown, Form::WriterBoundedHint, Form::RefUnknown]))
         .prop_filter_map("u8 elements use the byte-array form", |(e, s, d, f)| if e == Ty::U8 { None } else { Some((e, s, d, f)) })
@@ -583,7 +611,7 @@ pub fn cont_case_strategy() -> BoxedStrategy<ContCase> {
             let xs = val_strategy(&Ty::Vec(Arc::new(e.clone())), cfg);
             (Just(e), xs, Just(s), Just(d), Just(f))
         })
-        .prop_map(|(elem, xs, src, dst, form)| ContCase { elem, elem2: None, xs, src, dst, form });
+        .prop_map(|(elem, xs, src, dst, form)| ContCase { elem, elem2: None, xs, src, dst, form, holder: 0 });
     // (3) lists of pairs <-> maps
     let maps = (key_ty(1), any_ty(1), prop::sample::select(vec![Cont::Vec, Cont::Slice, Cont::LinkedList, Cont::HashMap, Cont::BTreeMap]), prop::sample::select(vec![Cont::Vec, Cont::LinkedList, Cont::HashMap, Cont::BTreeMap]), prop::sample::select(vec![Form::Known, Form::WriterUnknown, Form::RefUnknown]))
         .prop_flat_map(move |(k, v, s, d, f)| {
@@ -591,14 +619,14 @@ pub fn cont_case_strategy() -> BoxedStrategy<ContCase> {
             let xs = val_strategy(&Ty::Vec(Arc::new(pair)), cfg);
             (Just(k), Just(v), xs, Just(s), Just(d), Just(f))
         })
-        .prop_map(|(k, v, xs, src, dst, form)| ContCase { elem: k, elem2: Some(v), xs, src, dst, form });
+        .prop_map(|(k, v, xs, src, dst, form)| ContCase { elem: k, elem2: Some(v), xs, src, dst, form, holder: 0 });
     // (4) byte containers among themselves
     let bytes = (prop::sample::select(vec![Cont::Vec, Cont::Slice, Cont::Array, Cont::Bytes, Cont::RcSlice]), prop::sample::select(vec![Cont::Vec, Cont::Array, Cont::Bytes]), prop::sample::select(vmodel::gen::BYTE_ARRAY_LENS.to_vec()), any::<bool>())
         .prop_flat_map(|(s, d, n, fixed)| {
             let len = if fixed || s == Cont::Array || d == Cont::Array { (n..=n).boxed() } else { prop_oneof![4 => 0usize..70, 1 => 120usize..300].boxed() };
             (Just(s), Just(d), len.prop_flat_map(|l| proptest::collection::vec(any::<u8>(), l..=l)))
         })
-        .prop_map(|(src, dst, b)| ContCase { elem: Ty::U8, elem2: None, xs: Val::Bytes(b), src, dst, form: Form::Known });
+        .prop_map(|(src, dst, b)| ContCase { elem: Ty::U8, elem2: None, xs: Val::Bytes(b), src, dst, form: Form::Known, holder: 0 });
     // (5) many small sequences in one value, and sequences around the sizes at which an implementation may switch
     // strategy: rows of 0-2 elements, row counts from a list of thresholds
     let rows = (
@@ -615,8 +643,13 @@ pub fn cont_case_strategy() -> BoxedStrategy<ContCase> {
             let inner = val_strategy(&elem, ValCfg { max_len: 2, long: false, ..ValCfg::default() });
             (Just(elem), proptest::collection::vec(inner, n..=n).prop_map(Val::Seq), Just(s), Just(d), Just(f))
         })
-        .prop_map(|(elem, xs, src, dst, form)| ContCase { elem, elem2: None, xs, src, dst, form });
-    prop_oneof![8 => seqs, 4 => anyseq, 6 => maps, 4 => bytes, 1 => rows].boxed()
+        .prop_map(|(elem, xs, src, dst, form)| ContCase { elem, elem2: None, xs, src, dst, form, holder: 0 });
+    (prop_oneof![8 => seqs, 4 => anyseq, 6 => maps, 4 => bytes, 1 => rows], prop_oneof![3 => Just(0u8), 1 => Just(1u8), 2 => Just(2u8)])
+        .prop_map(|(mut c, holder)| {
+            c.holder = holder;
+            c
+        })
+        .boxed()
 }
 
 fn as_container_val(c: Cont, xs: &Val) -> Val {
@@ -726,6 +759,16 @@ pub fn check_c12(c: &ContCase, acc: &mut Acc, record: bool) -> Verdict {
         }
     }
     let expected = as_container_val(c.dst, &written);
+    // the same bytes met as a field of a record (in the record's only chunk, or in a chunk of their own)
+    let (dty, bytes, expected) = if c.holder % 3 != 0 {
+        let (hty, hbytes) = held(c.holder % 3, &dty, &bytes);
+        if record {
+            acc.bump(if c.holder % 3 == 1 { "targets_met_as_field_of_a_version_0_record" } else { "targets_met_in_a_chunk_of_their_own" }, 1);
+        }
+        (hty, hbytes, Val::Rec(vec![Val::Int(0x1234), expected, Val::str("q")]))
+    } else {
+        (dty, bytes, expected)
+    };
     let (got, rest) = vcat::decode_with_rest(&dty, &bytes);
     match got {
         Ok(v) => {
@@ -754,7 +797,7 @@ pub fn run_c12(cx: &Cx) -> PropResult {
     PropResult::new(
         acc,
         "exploration",
-        "cases = (element type E, element list xs with likely duplicates, source container S, target container D, size form): S in {Vec, &[E], [E;N], LinkedList, HashSet, BTreeSet, Rc<[E]>}, D in {Vec, [E;N], LinkedList, HashSet, BTreeSet}; lists of pairs <-> HashMap / BTreeMap / Vec<(K,V)>; byte containers Vec<u8>, &[u8], [u8;N], Bytes, Rc<[u8]> among themselves; forms: the writer's known-length form, the writer's unknown-length form (serialize_iterator over an iterator with an inexact size hint: unbounded (0, None) and bounded (lo, Some(hi)) with lo <= n <= hi as a filter adaptor reports) and the reference encoder's unknown-length form (of the list, or of the list and every sequence inside its elements); one case in 23 is a long list (up to 1100 leaves) or a list of up to 1100 small rows, with lengths taken around powers of two. Oracle: D decoded from S's bytes equals the elements as S wrote them (sequence equality for ordered targets, set/map equality with last-key-wins otherwise). Non-trivial = S != D or an unknown-length form, with a non-empty list.",
+        "cases = (element type E, element list xs with likely duplicates, source container S, target container D, size form): S in {Vec, &[E], [E;N], LinkedList, HashSet, BTreeSet, Rc<[E]>}, D in {Vec, [E;N], LinkedList, HashSet, BTreeSet}; lists of pairs <-> HashMap / BTreeMap / Vec<(K,V)>; byte containers Vec<u8>, &[u8], [u8;N], Bytes, Rc<[u8]> among themselves; forms: the writer's known-length form, the writer's unknown-length form (serialize_iterator over an iterator with an inexact size hint: unbounded (0, None) and bounded (lo, Some(hi)) with lo <= n <= hi as a filter adaptor reports) and the reference encoder's unknown-length form (of the list, or of the list and every sequence inside its elements); one case in 23 is a long list (up to 1100 leaves) or a list of up to 1100 small rows, with lengths taken around powers of two. The target is met at top level, as a field of a version-0 record between two siblings, or as a field in a chunk of its own of an evolved record (record bytes laid out by hand around S's bytes). Oracle: D decoded from S's bytes equals the elements as S wrote them (sequence equality for ordered targets, set/map equality with last-key-wins otherwise). Non-trivial = S != D or an unknown-length form, with a non-empty list.",
     )
 }
 
